@@ -561,6 +561,11 @@ func (d *Document) AutoGenerateTOC(config *TOCConfig) error {
 		config = DefaultTOCConfig()
 	}
 
+	// 没有可列入目录的标题时，在修改文档之前返回错误
+	if len(d.collectHeadings(config.MaxLevel)) == 0 {
+		return fmt.Errorf("文档中未找到标题（样式ID为2-10的段落）")
+	}
+
 	// 查找现有目录位置
 	tocStart := d.findTOCStart()
 	var insertIndex int
@@ -579,6 +584,13 @@ func (d *Document) AutoGenerateTOC(config *TOCConfig) error {
 
 	if len(entries) == 0 {
 		return fmt.Errorf("文档中未找到标题（样式ID为2-10的段落）")
+	}
+
+	// 已有目录控件（由 GenerateTOC 或之前的 AutoGenerateTOC 生成）：
+	// 移除它并在原位置重新生成，文档里始终只有一个目录
+	if _, sdtIndex := d.findTOCSDT(); sdtIndex != -1 {
+		d.Body.Elements = append(d.Body.Elements[:sdtIndex], d.Body.Elements[sdtIndex+1:]...)
+		insertIndex = sdtIndex
 	}
 
 	// 使用真正的Word域字段生成目录，而不是简化的SDT
@@ -908,7 +920,7 @@ func (d *Document) collectHeadingsAndAddBookmarks(maxLevel int) []TOCEntry {
 	newElements := make([]interface{}, 0, len(d.Body.Elements)*2)
 	entryIndex := 0
 
-	for _, element := range d.Body.Elements {
+	for position, element := range d.Body.Elements {
 		if paragraph, ok := element.(*Paragraph); ok {
 			level := d.getHeadingLevel(paragraph)
 			if level > 0 && level <= maxLevel {
@@ -916,6 +928,16 @@ func (d *Document) collectHeadingsAndAddBookmarks(maxLevel int) []TOCEntry {
 				if text != "" {
 					// 为每个条目生成唯一的书签ID（与目录条目中使用的一致）
 					anchor := fmt.Sprintf("_Toc%d", generateUniqueID(text))
+
+					// 重新生成目录时，标题已经带有上一次添加的同名书签：沿用它，不再重复添加
+					if position > 0 {
+						if existing, ok := d.Body.Elements[position-1].(*BookmarkStart); ok && existing.Name == anchor {
+							entries = append(entries, TOCEntry{Text: text, Level: level, PageNum: pageNum, BookmarkID: anchor})
+							newElements = append(newElements, element)
+							entryIndex++
+							continue
+						}
+					}
 
 					entry := TOCEntry{
 						Text:       text,
